@@ -38,7 +38,8 @@ def findfield (j : Json) : Except String Json := do
       match CIDict.items db.entries with
       | none => Json.str "KeyError"
       | some its => arr (its.map fun p => rowJ p.2.key (names.map fun n => optStr (p.2.findField n none)))
-  let bst : Json := match BibData.readFile (some cits) (file.map fun p => (p.1, p.2.personsAsFields)) with
+  let bstRead := BibData.readFile (some cits) (file.map fun p => (p.1, p.2.personsAsFields))
+  let bst : Json := match bstRead with
     | none => Json.str "KeyError"
     | some (db, _) =>
       let a := db.addExtraCitations cits 2
@@ -46,7 +47,13 @@ def findfield (j : Json) : Except String Json := do
       arr (b.1.map fun c => match db.entries.getItem c with
         | none => Json.str "KeyError"
         | some e => rowJ c (names.map (fun n => bstJ (bstFieldValue db e n)) ++ [bstJ (bstCrossrefValue db e)]))
-  let py : Json := match BibData.readFile (some cits) file with
+  let bstReports : Json := match bstRead with
+    | none => Json.str "KeyError"
+    | some (db, rep0) =>
+      let a := db.addExtraCitations cits 2
+      reportsJ (rep0 ++ a.2 ++ (db.removeMissing a.1).2)
+  let pyRead := BibData.readFile (some cits) file
+  let py : Json := match pyRead with
     | none => Json.str "KeyError"
     | some (db, _) =>
       let a := db.addExtraCitations cits 2
@@ -54,11 +61,18 @@ def findfield (j : Json) : Except String Json := do
       match db.lookupAll b.1 with
       | none => Json.str "KeyError"
       | some es => arr (es.map fun e => rowJ e.key (names.map fun n => exJ (pythonEngineField db e n)))
+  let pyReports : Json := match pyRead with
+    | none => Json.str "KeyError"
+    | some (db, rep0) =>
+      let a := db.addExtraCitations cits 2
+      reportsJ (rep0 ++ a.2 ++ (db.removeMissingPy a.1).2)
   let spec : Json := arr (sdb.map fun e => rowJ e.key (names.map fun n => optStr (Spec.lookup sdb e n)))
   let specOwn : Json := arr (sdb.map fun e => rowJ e.key (names.map fun n => optStr (e.own n)))
   let specParent : Json := arr (sdb.map fun e => rowJ e.key [optStr ((Spec.parent sdb e).map (·.key))])
-  pure (obj [("out", obj [("api", api), ("api_nodb", apiNoDb), ("bst", bst), ("py", py)]),
-             ("spec", obj [("lookup", spec), ("own", specOwn), ("parent", specParent)])])
+  let specDangling : Json := arr ((Spec.dangling sdb (Spec.keys sdb)).map fun p => arr [strToJson p.1, strToJson p.2])
+  pure (obj [("out", obj [("api", api), ("api_nodb", apiNoDb), ("bst", bst), ("bst_reports", bstReports),
+                          ("py", py), ("py_reports", pyReports)]),
+             ("spec", obj [("lookup", spec), ("own", specOwn), ("parent", specParent), ("dangling", specDangling)])])
 
 /-- driver ops of this property: (op name, handler) -/
 def handlers : List (String × (Json → Except String Json)) := [("findfield", findfield)]
